@@ -20,11 +20,8 @@ func Abs(ctx context.Context, args ...object.Object) object.Object {
 		}
 		return object.NewInt(v)
 	case *object.Float:
-		v := arg.Value()
-		if v < 0 {
-			v *= -1
-		}
-		return object.NewFloat(v)
+		// math.Abs also clears the sign of -0.0, which "v < 0" does not see
+		return object.NewFloat(math.Abs(arg.Value()))
 	default:
 		return object.TypeErrorf("type error: argument to math.abs not supported, got=%s", args[0].Type())
 	}
